@@ -101,12 +101,6 @@ SortedOrders(cands) ==  \* cands: set of route indices with key function
      \A i, j \in DOMAIN s : i < j => ~CurlyLess(cands[s[j]], cands[s[i]])}
 
 \* ---------- jsr311.go:69 detectRoute on an ordered candidate list ----------
-MatchesAcceptG(prod, hdr) ==  \* route.go:86
-  LET parts == SplitOn(hdr, ",") IN
-  \E i \in 1..Len(parts) :
-     LET mt == MediaOf(parts[i]) IN
-     mt = "*/*" \/ \E j \in 1..Len(prod) : prod[j] = "*/*" \/ prod[j] = mt
-
 DetectRoute(S, order, req) ==
   LET R(r) == S.routes[r]
       c1 == SelectSeq(order, LAMBDA r : R(r).conds \subseteq SeqToSet(req.conds))
